@@ -612,10 +612,20 @@ def rule_type(ctx, R):
 def rule_expired_on_load(ctx, R):
     """a record that carries an expiry is never loaded as persistent: the TTL handed on by
     read_key_value_with_expiry is never None"""
-    b = ctx.prog.need(RD + "read_key_value_with_expiry")
-    sites = [(i, t) for i, t in b.calls() if callee(t) == RD + "read_key_value_with_type"]
+    # the sites are found by what they do, wherever they live (a dedicated helper, or the opcode
+    # loop itself): calls of the record loader whose TTL operand derives from a deadline read from
+    # the file (read_u64_le / read_u32_le)
+    sites = []
+    for fn_, b_ in sorted(ctx.prog.bodies.items()):
+        if not fn_.startswith(RD) or b_.kind == "Closure":
+            continue
+        for i_, t_ in b_.calls():
+            if callee(t_) == RD + "read_key_value_with_type" and t_["a"] and not op_is_const(t_["a"][-1]):
+                P_ = prov.operand_origins(b_, t_["a"][-1], deep=True)
+                if P_.has_call(r"RdbReader::<R>::read_u(64|32)_le$") or any(b_.locals[p_] == "u64" for p_ in P_.params()):
+                    sites.append((b_, i_, t_))
     R.floor("expiry_load_sites", len(sites))
-    for i, t in sites:
+    for b, i, t in sites:
         P = prov.operand_origins(b, t["a"][-1])
         none = any(r[0] == "agg" and r[1] == "std::option::Option::None" for r in P.roots)
         R.inst(b.fn, "ttl-operand", {"at": b.loc(i), "can_be_None": none})
